@@ -1,4 +1,8 @@
 import Votca.Lemmas.C06
+import Votca.Model.C06F
+import Votca.Lemmas.Vec3
+import Mathlib.Tactic.FieldSimp
+import Mathlib.Tactic.LinearCombination
 /-! # C06 — property theorems: the inverse solvers return the minimiser of the stated least-squares problem
 
 `tikhonov`: the inverse `csg_imc_solve` builds from an orthogonal eigen-decomposition of `AᵀA` is the inverse of
@@ -124,3 +128,34 @@ theorem split_partition (α : Type) (ranges : List (Nat × Nat)) (x : List α)
 example : consecutive 1 [(1, 3), (4, 4), (5, 7)] = true ∧ totalRows [(1, 3), (4, 4), (5, 7)] = 7 := by decide
 
 end Votca.C06
+
+/-! # the angle term of force matching (`Votca/Model/C06F.lean`, tied to the real csg_fmatch by recomputing the reference forces from
+the written tables) -/
+namespace Votca.C06F
+open Votca Votca.C02
+
+/-- the three forces of one angle term sum to zero (no net force), whatever the tabulated value and the geometry -/
+theorem angle_forces_sum_zero (g : AngleGeom) (S : Rat) :
+    ((-S) * (angleGrads g).1) + ((-S) * (angleGrads g).2) + (S * ((angleGrads g).1 + (angleGrads g).2)) = V3.zero := by
+  apply Votca.C02.V3.ext3 <;> simp [V3.zero] <;> ring
+
+/-- the gradient of the angle with respect to an outer bead is perpendicular to that bead's arm (moving a bead along its arm does
+    not change the angle), given that `n1`, `n2`, `c` are the lengths and the cosine of the geometry -/
+theorem angle_grad_perp_arm (g : AngleGeom) (h1 : g.n1 * g.n1 = V3.dot g.u g.u) (h2 : g.n2 * g.n2 = V3.dot g.w g.w)
+    (hc : g.c * (g.n1 * g.n2) = V3.dot g.u g.w) (hn1 : g.n1 ≠ 0) (hn2 : g.n2 ≠ 0) :
+    V3.dot (angleGrads g).1 g.u = 0 ∧ V3.dot (angleGrads g).2 g.w = 0 := by
+  have e1 : g.u.x * g.u.x + g.u.y * g.u.y + g.u.z * g.u.z = g.n1 * g.n1 := h1.symm
+  have e2 : g.w.x * g.w.x + g.w.y * g.w.y + g.w.z * g.w.z = g.n2 * g.n2 := h2.symm
+  have e3 : g.u.x * g.w.x + g.u.y * g.w.y + g.u.z * g.w.z = g.c * (g.n1 * g.n2) := hc.symm
+  constructor
+  · simp only [angleGrads, V3.dot, smul_x, smul_y, smul_z, sub_x, sub_y, sub_z]
+    have : (1 / (g.n1 * g.n2)) * (g.w.x * g.u.x + g.w.y * g.u.y + g.w.z * g.u.z) - (g.c / (g.n1 * g.n1)) * (g.u.x * g.u.x + g.u.y * g.u.y + g.u.z * g.u.z) = 0 := by
+      have e3' : g.w.x * g.u.x + g.w.y * g.u.y + g.w.z * g.u.z = g.c * (g.n1 * g.n2) := by rw [← e3]; ring
+      rw [e3', e1]; field_simp; ring
+    linear_combination (-(1 / g.sn)) * this
+  · simp only [angleGrads, V3.dot, smul_x, smul_y, smul_z, sub_x, sub_y, sub_z]
+    have : (1 / (g.n1 * g.n2)) * (g.u.x * g.w.x + g.u.y * g.w.y + g.u.z * g.w.z) - (g.c / (g.n2 * g.n2)) * (g.w.x * g.w.x + g.w.y * g.w.y + g.w.z * g.w.z) = 0 := by
+      rw [e3, e2]; field_simp; ring
+    linear_combination (-(1 / g.sn)) * this
+
+end Votca.C06F
